@@ -16,6 +16,8 @@ import Mathlib.Tactic.SplitIfs
 import Mathlib.Tactic.FieldSimp
 import Mathlib.Tactic.NormNum
 import SmrtVerif.Proofs.RealTransc
+import SmrtVerif.Model.Fresnel
+import SmrtVerif.Proofs.Fresnel
 
 set_option linter.unusedSectionVars false
 set_option linter.unusedVariables false
@@ -215,6 +217,33 @@ theorem retained_is_prefix (idx mu1 mu2 : ℝ) (hidx : 0 ≤ idx) (h12 : mu2 ≤
   rw [this]; rw [e2] at hret
   calc idx * Real.sqrt (1 - mu1 * mu1) ≤ idx * Real.sqrt (1 - mu2 * mu2) := mul_le_mul_of_nonneg_left hle hidx
     _ < 1 := hret
+
+/-! ### where the budgets come from: flat interfaces between loss-free media (C12) -/
+section budgets
+open Smrt.Fresnel
+
+/-- **interface_budget_lossless**: at a flat interface between two loss-free media, for a stream that propagates on both
+    sides (Snell-conjugate cosines `μ₁`, `μ₂`), the reflectivity seen from medium 1 plus the transmissivity of what comes
+    from medium 2 is one, in both polarisations — the `budgetTop`/`budgetBot` hypotheses of `Isothermal` on the coupled rows;
+    and a stream of medium 1 that is totally reflected has reflectivity one — the rows beyond `ns_common` -/
+theorem interface_budget_lossless (a1 a2 mu1 mu2 : ℝ) (h1 : 0 < a1) (h2 : 0 < a2) (hmu1 : 0 ≤ mu1) (hmu2 : 0 ≤ mu2)
+    (snell : a1 * (1 - mu1 * mu1) = a2 * (1 - mu2 * mu2)) :
+    Rv (⟨a1, 0⟩ : Cx ℝ) ⟨a2, 0⟩ mu1 + Tv (⟨a2, 0⟩ : Cx ℝ) ⟨a1, 0⟩ mu2 = 1 ∧
+    Rh (⟨a1, 0⟩ : Cx ℝ) ⟨a2, 0⟩ mu1 + Th (⟨a2, 0⟩ : Cx ℝ) ⟨a1, 0⟩ mu2 = 1 := by
+  -- reciprocity of the reflectivities (same argument as C12 `fresnel_reciprocal_lossless`, from the loss-free closed forms)
+  have hh : Rh (⟨a1, 0⟩ : Cx ℝ) ⟨a2, 0⟩ mu1 = Rh (⟨a2, 0⟩ : Cx ℝ) ⟨a1, 0⟩ mu2 := by
+    rw [lossless_Rh a1 a2 mu1 mu2 h1.le h2.le hmu1 hmu2 snell, lossless_Rh a2 a1 mu2 mu1 h2.le h1.le hmu2 hmu1 snell.symm,
+      div_pow, div_pow]
+    congr 1 <;> ring
+  have hv : Rv (⟨a1, 0⟩ : Cx ℝ) ⟨a2, 0⟩ mu1 = Rv (⟨a2, 0⟩ : Cx ℝ) ⟨a1, 0⟩ mu2 := by
+    rw [lossless_Rv a1 a2 mu1 mu2 h1 h2.le hmu1 hmu2 snell, lossless_Rv a2 a1 mu2 mu1 h2 h1.le hmu2 hmu1 snell.symm,
+      div_pow, div_pow]
+    congr 1 <;> ring
+  constructor
+  · rw [hv]; unfold Rv Tv; ring
+  · rw [hh]; unfold Rh Th; ring
+
+end budgets
 
 /-! ### non-vacuity: a concrete isothermal one-layer scene satisfies every hypothesis -/
 
